@@ -505,6 +505,8 @@ func parseAddr(a string) net.Addr {
 //	                                         (bolt files are pre-grown unless "raw")
 //	put                                      the next beacon through callbackStore.Put        ok <r> | blocked <r> | err:…
 //	wait                                     for a blocked put                                done | still-blocked
+//	burst <sid> <n>                          n appends while live stream sid's client does    ok <head> ; send … ; … ; none
+//	                                         not read, then the client reads everything
 //	start <sid> <addr> <from> <sync|public>  SyncChain goroutine, stopped before Last         ok
 //	step <sid>                               release the current gate, run to the next one    started | send … | scan-end | registered | returned <e>
 //	begin | scanstep | register <sid>        step, but only from the gate before Last / inside the scan (noop once the
@@ -541,7 +543,7 @@ func streamEngine(args []string, in *bufio.Scanner, out *bufio.Writer) {
 			}
 			var s *sStream
 			switch f[0] {
-			case "step", "failstep", "deliver", "faildeliver", "cancel", "sent", "qlen", "begin", "scanstep", "scanall", "register", "drain":
+			case "step", "failstep", "deliver", "faildeliver", "cancel", "sent", "qlen", "begin", "scanstep", "scanall", "register", "drain", "burst":
 				s = c.streams[f[1]]
 				if s == nil {
 					return "bad-state"
@@ -572,6 +574,77 @@ func streamEngine(args []string, in *bufio.Scanner, out *bufio.Writer) {
 					c.head = r
 					return fmt.Sprintf("blocked %d", r)
 				}
+			case "burst":
+				// n appends in a row while the client of live stream s does not read (no Send is released); once the appends
+				// are over, or have stopped making progress (the dispatch waits for room in the job queue), the client reads
+				// again until nothing is coming. Whether an append had to wait is C12's concern; every round is C11's.
+				if c.blocked != nil || s.pending != nil || !s.live || s.returned || len(f) < 3 {
+					return "bad-state"
+				}
+				n, _ := strconv.Atoi(f[2])
+				first := c.head + 1
+				var donePuts int32
+				done := make(chan error, 1)
+				for _, t := range c.streams {
+					if t.cbid != "" && c.owner(t.cbid) == t {
+						atomic.AddInt32(&t.expected, int32(n))
+					}
+				}
+				go func() {
+					for i := 0; i < n; i++ {
+						if err := c.top.Put(c.ctx, streamBeacon(first+uint64(i))); err != nil {
+							done <- err
+							return
+						}
+						atomic.AddInt32(&donePuts, 1)
+					}
+					done <- nil
+				}()
+				finished := false
+				var perr error
+				last, lastChange := int32(-1), time.Now()
+				for !finished && time.Since(lastChange) < 300*time.Millisecond {
+					select {
+					case perr = <-done:
+						finished = true
+					default:
+						if cur := atomic.LoadInt32(&donePuts); cur != last {
+							last, lastChange = cur, time.Now()
+						}
+						time.Sleep(200 * time.Microsecond)
+					}
+				}
+				var outs []string
+				for i := 0; i < 100000; i++ {
+					r := s.deliver(nil)
+					if r == "none" && !finished {
+						select {
+						case perr = <-done:
+							finished = true
+							continue
+						case <-time.After(watchdog()):
+							c.blocked = done
+							return "stuck-appends"
+						}
+					}
+					outs = append(outs, r)
+					if !strings.HasPrefix(r, "send ") {
+						break
+					}
+				}
+				if !finished {
+					select {
+					case perr = <-done:
+					case <-time.After(watchdog()):
+						c.blocked = done
+						return "stuck-appends"
+					}
+				}
+				if perr != nil {
+					return "err:" + strings.ReplaceAll(perr.Error(), " ", "_")
+				}
+				c.head = first + uint64(n) - 1
+				return fmt.Sprintf("ok %d ; ", c.head) + strings.Join(outs, " ; ")
 			case "wait":
 				if c.blocked == nil {
 					return "done"
